@@ -448,6 +448,61 @@ def r0_generated(ctx):
     return r, True, None
 
 
+def r4_names_as_configured(ctx):
+    """MIR of load_locales_inner: the locale list handed to create_locales_enum is the configuration's `locales` field itself (a
+    borrow, at most dereferenced to a slice) - not a list computed from it, whose names could be respelled on the way"""
+    import mustlib as M
+    from mirlib import op_place, callee_name
+    r = Rule("C13.R4", "the locale enum is generated from the configured locale list itself",
+             "`as_str, Display and serde give the configured name`: create_locales_enum prints the names it is given; a list derived from the configuration "
+             "(names normalised, `_` replaced ..) makes the enum spell a locale differently from the configuration and from the file names", floor=1)
+    prog = ctx.mir("main")
+    b = prog.body("load_locales::load_locales_inner")
+    if b is None:
+        r.missing("load_locales_inner")
+        return r
+    calls = M.call_blocks(b, r"load_locales::create_locales_enum$")
+    if len(calls) != 1:
+        r.viol("R4:load_locales_inner#call", "create_locales_enum is called %d time(s)" % len(calls), file=b.file, line=b.line)
+        return r
+    t = b.blocks[calls[0]]["term"]
+    arg = op_place(t["args"][-1])
+    steps = []
+    cur = arg
+    ok = False
+    for _ in range(8):
+        if cur is None:
+            break
+        if M._place_is_field(b, prog, cur, "cfg_file::ConfigFile", "locales"):
+            ok = True
+            break
+        if cur["p"] and cur["p"] != ["*"]:
+            break
+        ds = b.defs().get(cur["l"], [])
+        if len(ds) != 1:
+            break
+        bi, j, st = ds[0]
+        if j == "term":
+            cn = callee_name(st) or ""
+            if re.search(r"Deref>::deref$|::as_slice$|AsRef<.*>>::as_ref$|Borrow<.*>>::borrow$", cn) and len(st["args"]) == 1:
+                steps.append(cn.split("::")[-1])
+                cur = op_place(st["args"][0])
+                continue
+            steps.append("call " + cn)
+            break
+        rv = st["rv"]
+        if rv["k"] in ("Ref", "Use", "Cast", "CopyForDeref") or (rv["k"] == "Cast"):
+            cur = rv.get("place") or (op_place(rv["ops"][0]) if rv.get("ops") else None)
+            continue
+        steps.append(rv["k"])
+        break
+    if ok:
+        r.inst("load_locales_inner -> create_locales_enum", "the last argument is `&cfg_file.locales`%s" % ((" through " + ", ".join(steps)) if steps else ""))
+    else:
+        r.viol("R4:load_locales_inner#locales-arg", "create_locales_enum receives a list that is not the configuration's `locales` field itself (it is produced by: %s)" % (", ".join(steps) or "another local"), file=b.file, line=t.get("line"))
+    return r
+
+
 def run(ctx):
     import os
     r0, ok, why = r0_generated(ctx)
@@ -460,13 +515,13 @@ def run(ctx):
                 "`get_all lists every locale exactly once with the default first`: the generator keeps the order of the configured "
                 "list, so the normalisation done when the configuration is loaded is part of this property", only=r"ConfigFile::new", floor=1)
     if ok and not os.environ.get("VERIF_FORCE_FALLBACK"):
-        return [r0, r2_scoped(ctx), r3]
+        return [r0, r2_scoped(ctx), r3, r4_names_as_configured(ctx)]
     if not ok and not r0.violations:
         r0.instances[:] = []
         r0.inst("evaluation not available", "fallback to the structural rule R1: %s" % str(why)[:160])
         r0.viol("R0:undecided", "the evaluation cannot interpret the current code (%s): the clauses it decides are NOT decided on this tree; the structural rules reported alongside only cover part of them (fail closed)" % str(why)[:300])
         r0.floor = 1
-    return [r0, r1_enum(ctx), r2_scoped(ctx), r3]
+    return [r0, r1_enum(ctx), r2_scoped(ctx), r3, r4_names_as_configured(ctx)]
 
 
 MANIFEST_ENTRY = {
